@@ -252,9 +252,19 @@ def exact_keys(fcp: "ref:FcpV2", name: "str", v: "dyn") -> "bool":
                                                         len(sorted_fields(struct_of(fcp, name))))))
 
 
+def unpack_bits(b: "arr", k: "int") -> "seq[int]":
+    """the 8*k bits of the first k bytes of b, LSB first"""
+    if k <= 0:
+        return seq_empty("int")
+    return unpack_bits(b, k - 1) + [arr_get(b, k - 1) % 2, (arr_get(b, k - 1) // 2) % 2, (arr_get(b, k - 1) // 4) % 2,
+                                    (arr_get(b, k - 1) // 8) % 2, (arr_get(b, k - 1) // 16) % 2, (arr_get(b, k - 1) // 32) % 2,
+                                    (arr_get(b, k - 1) // 64) % 2, (arr_get(b, k - 1) // 128) % 2]
+
+
+@pure
 def bits_of_bytes(b: "arr") -> "seq[int]":
     """all 8*len(b) bits of a byte string, LSB first"""
-    ...
+    return unpack_bits(b, arr_len(b))
 
 
 # ---------------------------------------------------------------- schema well-formedness as far as the codec needs it (C08 establishes it)
